@@ -188,3 +188,16 @@ Print Assumptions C17_drain_idiom_refuted.
 Theorem C17_verify_seq_covers_consumed_messages : Syncer.SeqCheck.seq_cases_ok = true.
 Proof. exact Syncer.SeqCheck.verify_seq_covers_consumed_messages. Qed.
 Print Assumptions C17_verify_seq_covers_consumed_messages.
+
+(** The finder's wait for the ancestor answer has one deadline fixed at request time: ignored
+    (below-anchor) answers, however many and however spaced, do not extend it; re-arming the timer
+    per ignored answer does (refuted variant). *)
+Theorem C17_ancestor_wait_bounded : forall evs timeout left, (left <= timeout)%N ->
+  (wait_time false left timeout evs <= timeout)%N.
+Proof. exact ancestor_wait_bounded. Qed.
+Print Assumptions C17_ancestor_wait_bounded.
+
+Theorem C17_ancestor_wait_rearmed_refuted :
+  wait_time true 300 300 [100; 100; 100; 100; 100; 100; 100; 100; 100; 100]%N = 1300%N.
+Proof. exact ancestor_wait_rearmed_refuted. Qed.
+Print Assumptions C17_ancestor_wait_rearmed_refuted.
